@@ -150,7 +150,14 @@ class Scratch:
 # ---------------------------------------------------------------------------------------------
 def _worker(args):
     fn, shard, nshards, payload = args
-    return fn(shard, nshards, payload)
+    try:
+        return fn(shard, nshards, payload)
+    finally:
+        # pool workers leave through os._exit: atexit handlers do not run there, so the worker's scratch root is removed here
+        global _scratch_root
+        if _scratch_root is not None and _scratch_owner[0] == os.getpid():
+            shutil.rmtree(_scratch_root, ignore_errors=True)
+            _scratch_root = None
 
 
 def run_sharded(fn, payload=None, nshards=None):
